@@ -13,7 +13,7 @@ package slog
 //@ func newentry
 //@   props C10
 //@   assigns everything
-//@   keeps Entry.*, dualWriter.*, map[string]*Entry
+//@   keeps Entry.*, dualWriter.*, map[string]*Entry, lvlCurrent
 //@   maypanic
 //@   requires [C10.opts] forall(i, 0, len(args), implies(typeis(args[i], Opt), dyn(args[i], Opt) != nil))
 //@   loop 1 invariant s != nil && fresh(s) && (cap(todo) == 0 || fresh(todo))
@@ -105,7 +105,7 @@ package slog
 //@   props C10
 //@   assigns everything
 //@   maypanic
-//@   keeps Entry.*, dualWriter.*, map[string]*Entry
+//@   keeps Entry.*, dualWriter.*, map[string]*Entry, lvlCurrent
 //@   requires [C10.opts] forall(i, 0, len(args), implies(typeis(args[i], Opt), dyn(args[i], Opt) != nil))
 //@   ensures [C10.detached] result != nil && fresh(result) && result.Entry != nil && fresh(result.Entry) && implies(old(forall(i, 0, len(args), !typeis(args[i], Opt))), result.Entry.owner == nil && result.Entry.level == old(lvlCurrent) && result.Entry.useColor && !result.Entry.useJSON && result.Entry.writer == nil && result.Entry.items == nil)
 
@@ -113,7 +113,7 @@ package slog
 //@   props C10
 //@   assigns everything
 //@   maypanic
-//@   keeps Entry.*, dualWriter.*, map[string]*Entry
+//@   keeps Entry.*, dualWriter.*, map[string]*Entry, lvlCurrent
 //@   requires [C10.opts] forall(i, 0, len(args), implies(typeis(args[i], Opt), dyn(args[i], Opt) != nil))
 //@   ensures [C10.detached] typeis(result, *logimp) && dyn(result, *logimp) != nil && dyn(result, *logimp).Entry != nil && fresh(dyn(result, *logimp).Entry) && implies(old(forall(i, 0, len(args), !typeis(args[i], Opt))), dyn(result, *logimp).Entry.owner == nil && dyn(result, *logimp).Entry.level == old(lvlCurrent) && dyn(result, *logimp).Entry.useColor && !dyn(result, *logimp).Entry.useJSON)
 
@@ -138,6 +138,26 @@ package slog
 //@   ensures [C10.tree] forall(m, map[string]*Entry, forall(k, implies(has(m, k), m[k] != nil)))
 //@   loop 1 invariant forall(m, map[string]*Entry, forall(k, implies(has(m, k), m[k] != nil)))
 //@   at call (*Entry).forEachLogger assert [C10.each-child] (callee.lvl == lvl + 1 || lvl == 9223372036854775807) && callee.cb == cb
+
+// The package's default level: Warn in a production process (no tracing, no debugger, not under go
+// test, no debug build, no debug mode, DEBUG unset), until SetLevel changes it.
+//@ func init#1$1
+//@   props C10
+//@   assigns everything
+//@   maypanic
+//@   ensures [C10.default-level] implies(uf("probe.tracing") == 0 && uf("probe.tracemode") == 0 && uf("probe.debugger") == 0 && !old(inTesting) && uf("probe.debugbuild") == 0 && uf("probe.debugmode") == 0 && uf("probe.debugenv") == 0, lvlCurrent == WarnLevel)
+
+//@ func SetLevel
+//@   props C10
+//@   requires !isnil(defaultLog)
+//@   assigns everything
+//@   maypanic
+//@   ensures [C10.default-set] lvlCurrent == lvl
+//@   at call (Logger).SetLevel assert [C10.default-forward] callee.self == defaultLog && callee.a0 == lvl
+
+//@ func GetLevel
+//@   props C10
+//@   ensures [C10.default-get] result == lvlCurrent
 
 // ---- generated by /verif/tools/gen_c10.py: setters and With* constructors
 
